@@ -1175,3 +1175,5 @@ RULE += (' Added: classes used as SelectContext predicates; one list / tuple spe
          'again after reset().')
 RULE += (' Added: a specification list made of ready Selector objects, edited by the user after the '
          'selector was built.')
+
+RULE += (' Round 10: lists / tuples of 16..60 alternatives with negated leaves, nestings 5..8 deep; every selector also evaluated through copy.copy / copy.deepcopy / pickle of itself.')
